@@ -76,6 +76,8 @@ PATHS = {
     "verbose": "b", "silent": "b", "vendor": "i", "foo": "s", "okl/foo": "i",
 }
 INERT = ["verbose", "silent", "vendor", "foo", "okl/foo"]
+ORDERP = ["headers", "includes", "okl/include_paths", "headers", "okl/include_paths", "compiler_flags"]
+ORDER_ITEMS = ["/opt/a", "/opt/b", "/opt/c", "#define Q 1", "#define Q 2", "x.h"]
 LEVELP = ["defines", "includes", "headers", "functions", "compiler_flags", "okl/include_paths"]
 ALLP = list(PATHS)
 
@@ -101,8 +103,8 @@ class Gen:
     def pair(self):
         rng = self.rng
         kind = rng.choices(["ident", "inert", "one", "swap", "move", "cancel", "source", "mode", "random", "remove",
-                            "level", "levelmove"],
-                           [8, 5, 26, 12, 8, 12, 5, 5, 9, 5, 10, 4])[0]
+                            "level", "levelmove", "order"],
+                           [8, 5, 24, 12, 8, 12, 5, 5, 9, 5, 10, 4, 8])[0]
         m1 = m2 = rng.choice("SSO")
         base = self.base()
         toks = ["A%s=%s" % (p, enc(v)) for p, v in base.items()]
@@ -150,6 +152,19 @@ class Gen:
                     toks += ["%s2%s=%s" % (rng.choice([l1, "d", "g"]), p, enc(b))]
             else:
                 toks += ["%s1%s=%s" % (l1, p, enc(a)), "2%s=%s" % (p, enc(a))]
+        elif kind == "order":
+            # same entries, different order, in an array-valued property (the build consumes arrays in order: header
+            # text is emitted in order, include paths are searched in order).  `defines`/`functions` are objects =
+            # sorted maps (std::map), so their key order cannot differ between two configurations.
+            p = rng.choice(ORDERP)
+            items = rng.sample(ORDER_ITEMS, rng.randint(2, 4))
+            perm = items[:]
+            while perm == items:
+                rng.shuffle(perm)
+            lv = rng.choice(["", "", "d", "g"])
+            toks = [t for t in toks if not t[1:].startswith(p + "=")]
+            arr = lambda l: "[" + ", ".join('"%s"' % x for x in l) + "]"
+            toks += ["%s1%s=%s" % (lv, p, enc(arr(items))), "%s2%s=%s" % (lv, p, enc(arr(perm)))]
         elif kind == "source":
             s2 = rng.choice([x for x in (0, 1, 2) if x != s1])
             if rng.random() < 0.05:
@@ -253,6 +268,11 @@ def build_families(base):
         ("defines from the device's kernel properties", BUILD_SRC,
          {"compiler_flags": '"-DC06_X=6"', "@d:defines": '{"C06_Y":1}'},
          {"compiler_flags": '"-DC06_X=6"', "@d:defines": '{"C06_Y":2}'}),
+        ("headers: same entries in a different order", BUILD_SRC,
+         {"compiler_flags": '"-DC06_X=8"',
+          "headers": '["#ifndef C06_Y\\n#define C06_Y 1\\n#endif", "#ifndef C06_Y\\n#define C06_Y 2\\n#endif"]'},
+         {"compiler_flags": '"-DC06_X=8"',
+          "headers": '["#ifndef C06_Y\\n#define C06_Y 2\\n#endif", "#ifndef C06_Y\\n#define C06_Y 1\\n#endif"]'}),
         ("headers from occa::settings()", BUILD_SRC,
          {"compiler_flags": '"-DC06_X=7"', "@g:headers": '["#define C06_Y 1"]'},
          {"compiler_flags": '"-DC06_X=7"', "@g:headers": '["#define C06_Y 2"]'}),
